@@ -2,9 +2,11 @@
    Only statements + `exact` + Print Assumptions live here. Model: C08_Defs (imports the kernels translated from
    mask.h, datasource.{h,cpp}, dataset.cpp and the generator headers on every run). *)
 From Coq Require Import List ZArith Bool Lia.
+From Coq Require Floats.
 From LNGen Require Import Src_c08.
-From LN Require Import C08_Defs C08_Proofs.
+From LN Require Import C08_Defs C08_Proofs C08_Gradient C08_GradientProofs.
 Import ListNotations.
+Import PrimFloat.PrimFloatNotations.   (* notations only: the primitives print as PrimFloat.* in Print Assumptions *)
 Local Open Scope Z_scope.
 
 (* bit mask: setting the bit of sample i makes exactly that sample "given"; every sample < n addresses a byte inside
@@ -215,4 +217,179 @@ Example C08_nonvacuous_views :
 Proof.
   vm_compute. repeat split; try reflexivity; try discriminate.
   eexists. split; reflexivity.
+Qed.
+
+(* ============================================================================================================ *)
+(* the gradient generator at the value level (model: C08_Gradient, primitive binary64 floats; the twelve window   *)
+(* offsets, the input size, the output dims, the loop bound 4 and the (channel, mode) mapping columns are the    *)
+(* expressions translated from gradient.h / elemwise_gradient.{h,cpp} on every run)                              *)
+(* ============================================================================================================ *)
+
+(* every window read of every output cell lies inside the (rows + 2) x (cols + 2) input, every output write inside
+   rows x cols (for all rows, cols >= 1); the output is row-major; a channel's slice lies inside the sample's block *)
+Theorem C08_gradient_reads_in_bounds : forall atan2 mode kw rows cols img row col,
+  1 <= rows -> 1 <= cols -> 0 <= row < rows -> 0 <= col < cols ->
+  (forall r c, In (r, c) (gx_reads row col ++ gy_reads row col) ->
+     0 <= r < src_grad_in_rows rows /\ 0 <= c < src_grad_in_cols cols /\
+     0 <= in_index (src_grad_in_cols cols) r c < src_grad_in_rows rows * src_grad_in_cols cols) /\
+  0 <= row * cols + col < rows * cols /\
+  zlen (gradient3x3 atan2 mode kw rows cols img) = rows * cols /\
+  znth (row * cols + col) (gradient3x3 atan2 mode kw rows cols img) f_nan =
+    grad_cell atan2 mode kw (src_grad_in_cols cols) img row col /\
+  (forall channels ch, 0 <= ch < channels ->
+     0 <= ch * (src_grad_in_rows rows * src_grad_in_cols cols) /\
+     ch * (src_grad_in_rows rows * src_grad_in_cols cols) + src_grad_in_rows rows * src_grad_in_cols cols
+       <= channels * (src_grad_in_rows rows * src_grad_in_cols cols)).
+Proof. exact t_gradient_reads_in_bounds. Qed.
+Print Assumptions C08_gradient_reads_in_bounds.
+
+(* generated feature index j of a source feature <-> (channel, mode) = (j / 4, j mod 4) is a bijection of [0, 4*channels)
+   onto [0, channels) x [0, 4); 4 * channels features (= the translated `count +=`); every one has source i, a float64
+   descriptor of dims (1, rows - 2, cols - 2) and (rows - 2) * (cols - 2) columns *)
+Theorem C08_gradient_layout : forall i f,
+  0 <= f_d0 f ->
+  zlen (grad_block i f) = src_grad_count (f_d0 f) /\
+  (forall rows cols, src_grad_applies_count rows cols = src_grad_applies rows cols) /\
+  (forall j, 0 <= j < 4 * f_d0 f ->
+     znth j (grad_block i f) (grad_feat i f 0) = grad_feat i f j /\
+     grad_channel (grad_feat i f j) = Z.quot j 4 /\ grad_mode (grad_feat i f j) = Z.rem j 4 /\
+     0 <= grad_channel (grad_feat i f j) < f_d0 f /\ 0 <= grad_mode (grad_feat i f j) < 4 /\
+     grad_channel (grad_feat i f j) * 4 + grad_mode (grad_feat i f j) = j) /\
+  (forall ch ty, 0 <= ch < f_d0 f -> 0 <= ty < 4 ->
+     0 <= ch * 4 + ty < 4 * f_d0 f /\
+     grad_channel (grad_feat i f (ch * 4 + ty)) = ch /\ grad_mode (grad_feat i f (ch * 4 + ty)) = ty /\
+     forall j, 0 <= j < 4 * f_d0 f -> grad_channel (grad_feat i f j) = ch -> grad_mode (grad_feat i f j) = ty ->
+               j = ch * 4 + ty) /\
+  (src_grad_applies (f_d1 f) (f_d2 f) = true ->
+     desc_dims (grad_desc f) = (1, f_d1 f - 2, f_d2 f - 2) /\ 1 <= f_d1 f - 2 /\ 1 <= f_d2 f - 2 /\
+     desc_cols (grad_desc f) = (f_d1 f - 2) * (f_d2 f - 2) /\
+     grad_rows (grad_feat i f 0) = f_d1 f - 2 /\ grad_cols (grad_feat i f 0) = f_d2 f - 2).
+Proof. exact t_gradient_layout. Qed.
+Print Assumptions C08_gradient_layout.
+
+(* characterisation (pins the model): gx / gy at (row, col) are the textbook expressions over the 6 neighbours with the
+   kernel weights in the code's operation order ((k0*d0 + k1*d1) + k2*d2), magnitude = sqrt(gx*gx + gy*gy), angle =
+   atan2(gy, gx); the weights of make_kernel3x3 computed in double are 1/4 2/4 1/4, 3/16 10/16 3/16 and RN(1/3) x 3 *)
+Theorem C08_gradient_spec : forall atan2 k0 k1 k2 ic img row col,
+  let a := in_at ic img in
+  let gx := make_gx (k0, k1, k2) ic img row col in
+  let gy := make_gy (k0, k1, k2) ic img row col in
+  let p00 := a row col in let p01 := a row (col + 1) in let p02 := a row (col + 2) in
+  let p10 := a (row + 1) col in let p12 := a (row + 1) (col + 2) in
+  let p20 := a (row + 2) col in let p21 := a (row + 2) (col + 1) in let p22 := a (row + 2) (col + 2) in
+  gx = (k0 * (p02 - p00) + k1 * (p12 - p10) + k2 * (p22 - p20))%float /\
+  gy = (k0 * (p20 - p00) + k1 * (p21 - p01) + k2 * (p22 - p02))%float /\
+  grad_cell atan2 0 (k0, k1, k2) ic img row col = gx /\
+  grad_cell atan2 1 (k0, k1, k2) ic img row col = gy /\
+  grad_cell atan2 2 (k0, k1, k2) ic img row col = PrimFloat.sqrt (gx * gx + gy * gy)%float /\
+  grad_cell atan2 3 (k0, k1, k2) ic img row col = atan2 gy gx /\
+  make_kernel3x3 Sobel = (f_quarter, f_half, f_quarter) /\
+  make_kernel3x3 Scharr = (f_3_16, f_10_16, f_3_16) /\
+  make_kernel3x3 Prewitt = (f_third, f_third, f_third).
+Proof. exact t_gradient_spec. Qed.
+Print Assumptions C08_gradient_spec.
+
+(* value fact in binary64: on a window where the image is constant and finite, gx = gy = +0 and the magnitude is +0,
+   exactly, for all three kernels (x - x = +0 through FloatAxioms.sub_spec) *)
+Theorem C08_gradient_constant_image : forall kern ic img row col v,
+  finite v ->
+  (forall r c, In (r, c) (gx_reads row col ++ gy_reads row col) -> in_at ic img r c = v) ->
+  let gx := make_gx (make_kernel3x3 kern) ic img row col in
+  let gy := make_gy (make_kernel3x3 kern) ic img row col in
+  gx = f_zero /\ gy = f_zero /\ magnitude gx gy = f_zero.
+Proof. exact t_gradient_constant. Qed.
+Print Assumptions C08_gradient_constant_image.
+
+(* value fact in binary64: the magnitude is NaN or >= 0, for ALL floats gx, gy (infinities, NaN included) *)
+Theorem C08_gradient_magnitude_nonneg : forall gx gy,
+  f_is_nan (magnitude gx gy) = true \/ f_nonneg (magnitude gx gy) = true.
+Proof. exact t_gradient_magnitude. Qed.
+Print Assumptions C08_gradient_magnitude_nonneg.
+
+(* mirroring the image left-right negates gx (output column col <-> cols - 1 - col): stated over an ABSTRACT scalar
+   structure (antisymmetric subtraction, negation commuting with * and +), of which the float code is the instance
+   at PrimFloat (second clause, by reflexivity).  In binary64 itself the identity holds only up to the sign of zero:
+   C08_gradient_flip_binary64_sign_of_zero is a constant image where gx(mirror) = +0 <> -0 = -gx bitwise (== holds) *)
+Theorem C08_gradient_flip_negates_gx : forall (S : Type) (add sub mul : S -> S -> S) (opp : S -> S),
+  (forall a b, sub a b = opp (sub b a)) -> (forall k a, mul k (opp a) = opp (mul k a)) ->
+  (forall a b, add (opp a) (opp b) = opp (add a b)) ->
+  (forall k0 k1 k2 a in_cols row col d,
+     gx_abs S add sub mul k0 k1 k2 (flip_lr S in_cols a) row col d =
+     opp (gx_abs S add sub mul k0 k1 k2 a row (in_cols - 2 - 1 - col) d)) /\
+  (forall k0 k1 k2 ic img row col,
+     make_gx (k0, k1, k2) ic img row col =
+     gx_abs PrimFloat.float PrimFloat.add PrimFloat.sub PrimFloat.mul k0 k1 k2 (in_at ic img) row col f_nan).
+Proof. exact t_gradient_flip. Qed.
+Print Assumptions C08_gradient_flip_negates_gx.
+
+Theorem C08_gradient_flip_binary64_sign_of_zero :
+  make_gx (make_kernel3x3 Sobel) 3 ones9 0 0 <> (- make_gx (make_kernel3x3 Sobel) 3 (rev ones9) 0 0)%float /\
+  (make_gx (make_kernel3x3 Sobel) 3 ones9 0 0 =? - make_gx (make_kernel3x3 Sobel) 3 (rev ones9) 0 0)%float = true.
+Proof. exact flip_float_counterexample. Qed.
+Print Assumptions C08_gradient_flip_binary64_sign_of_zero.
+
+(* the views agree, values included: for every generator stack (one kernel type per generator), flag state, sample and
+   stale buffer the float-valued flatten row is the concatenation of the encoded per-feature views; the piece of a
+   gradient feature IS its select view: the row-major gradient image of the source sample's channel (cell
+   row * cols + col = the model's value at (row, col)), all NaN if the feature is dropped or the source is missing *)
+Theorem C08_views_agree_gradient : forall atan2 kerns rd gs fl s r,
+  gens_ok_f rd gs -> zlen r = columns gs ->
+  flat_row_f atan2 kerns rd gs fl s r = enc_gens_v (view_enc_f atan2 s rd) kerns gs fl /\
+  (forall kern g f, In g (concat gs) -> g_kind g = GGradient ->
+     view_enc_f atan2 s rd kern g f = select_view_f atan2 kern rd g f s /\
+     zlen (view_enc_f atan2 s rd kern g f) = g_colsize g /\ g_colsize g = grad_rows g * grad_cols g /\
+     (forall v, is_dropped f = false -> rd (g_o1 g) (eff_sample f s) = Some v ->
+        view_enc_f atan2 s rd kern g f = map Some (grad_image atan2 kern g v) /\
+        forall row col, 0 <= row < grad_rows g -> 0 <= col < grad_cols g ->
+          znth (row * grad_cols g + col) (view_enc_f atan2 s rd kern g f) None =
+          Some (grad_cell atan2 (grad_mode g) (make_kernel3x3 kern) (src_grad_in_cols (grad_cols g)) (grad_input g v) row col)) /\
+     (is_dropped f = true \/ rd (g_o1 g) (eff_sample f s) = None ->
+        view_enc_f atan2 s rd kern g f = zrepeat None (g_colsize g))).
+Proof. exact t_views_agree_gradient. Qed.
+Print Assumptions C08_views_agree_gradient.
+
+(* the extra hypothesis of the previous theorem holds for everything fit() builds from features with dims >= 2 *)
+Theorem C08_fit_gradient_ok : forall st k ids1 ids2,
+  (forall i, 0 <= f_d1 (ds_feature st i) - 2 /\ 0 <= f_d2 (ds_feature st i) - 2 \/
+             src_grad_applies (f_d1 (ds_feature st i)) (f_d2 (ds_feature st i)) = false) ->
+  Forall grad_ok (fit st k ids1 ids2).
+Proof. exact fit_grad_ok. Qed.
+Print Assumptions C08_fit_gradient_ok.
+
+(* ---- non-vacuity: a 2-channel 3x4 int16 image, its 8 gradient features, concrete values ---------------------------- *)
+Definition gex_feats : list feature := [mkF TI16 0 2 3 4; mkF TF64 0 1 1 1].
+Definition gex_image : list Z := [1; 2; 4; 8;  3; 5; 9; 17;  -2; 0; 32767; -32768;
+                                  7; 7; 7; 7;  7; 7; 7; 7;   7; 7; 7; 7].
+Definition gex_store : store :=
+  match run_sets (resize 2 gex_feats 9) [(0, 1, gex_image)] with Some st => st | None => resize 0 [] 0 end.
+Definition gex_gens : gens := [fit gex_store GScalar [] []; fit gex_store GGradient [] []].
+Definition gex_atan2 (y x : PrimFloat.float) : PrimFloat.float := f_zero.      (* any function: the theorems are for all atan2 *)
+
+Example C08_nonvacuous_gradient :
+  (* layout: 1 scalar + 8 gradient features of 1 x 2 cells; the 6th has (channel, mode) = (1, 1) *)
+  features gex_gens = 9 /\ columns gex_gens = 1 + 8 * 2 /\
+  map (fun g => (grad_channel g, grad_mode g)) (fit gex_store GGradient [] []) =
+    [(0, 0); (0, 1); (0, 2); (0, 3); (1, 0); (1, 1); (1, 2); (1, 3)] /\
+  (* the hypotheses of C08_views_agree_gradient are satisfiable *)
+  Forall grad_ok (concat gex_gens) /\ Forall cols_ok (concat gex_gens) /\
+  (* values: sample 1 is given, sample 0 is missing; channel 1 is constant => exact zeros *)
+  flat_row_f gex_atan2 [Sobel; Scharr] (ds_reader gex_store) gex_gens (flags_init gex_gens) 0 (zrepeat (Some f_half) 17)
+    = zrepeat None 17 /\
+  map (fun c => match c with Some x => FloatOps.Prim2SF x | None => SpecFloat.S754_nan end)
+      (skipn 9 (flat_row_f gex_atan2 [Sobel; Scharr] (ds_reader gex_store) gex_gens (flags_init gex_gens) 1 (zrepeat None 17)))
+    = repeat (SpecFloat.S754_zero false) 8 /\
+  (* gx of channel 0 with the scharr weights, the two output cells: (3*3 + 10*6 + 3*32769)/16 and (3*6 + 10*12 - 3*32768)/16 *)
+  firstn 2 (skipn 1 (flat_row_f gex_atan2 [Sobel; Scharr] (ds_reader gex_store) gex_gens (flags_init gex_gens) 1 (zrepeat None 17)))
+    = [Some (z2f 98376 / z2f 16)%float; Some (z2f (-98166) / z2f 16)%float] /\
+  finite (z2f 32767) /\ finite (z2f (-4503599627370496)).
+Proof.
+  split; [vm_compute; reflexivity|]. split; [vm_compute; reflexivity|]. split; [vm_compute; reflexivity|].
+  split.
+  { set (l := concat gex_gens). vm_compute in l. subst l.
+    repeat (apply Forall_cons; [intros _; vm_compute; repeat split; discriminate|]). apply Forall_nil. }
+  split.
+  { set (l := concat gex_gens). vm_compute in l. subst l.
+    repeat (apply Forall_cons; [vm_compute; reflexivity|]). apply Forall_nil. }
+  split; [vm_compute; reflexivity|]. split; [vm_compute; reflexivity|]. split; [vm_compute; reflexivity|].
+  split; vm_compute; exact I.
 Qed.
